@@ -251,6 +251,8 @@ class Range:
 class LoopIndex:
     @staticmethod
     def build(ev, kids, p, node, ctx):
+        if kids:   # run-time length: an integer argument in [0, p['length']]
+            return ev.loop_index(p['name'], ev.InRange(kids[0], ev.constant(p['length'] + 1)))
         return ev.loop_index(p['name'], p['length'])
 
     @staticmethod
@@ -385,15 +387,16 @@ class PowConst:
     EXPS = [2, 3, 4, 0, 1, -1, -2, .5, 1.5, -.5, .25, 2., 4.]
 
     @staticmethod
-    def gen(pool, a=None):
+    def gen(pool, a=None, e=None):
         a = a or pool.pick(lambda n: n.kind in 'if')
         if a.kind not in 'if':
             raise Reject
         if a.kind == 'i':
-            e = int(pool.rng.choice([0, 1, 2, 3]))
+            e = int(pool.rng.choice([0, 1, 2, 3])) if e is None or not float(e).is_integer() or e < 0 else int(e)
             via = 'int'
         else:
-            e = PowConst.EXPS[int(pool.rng.integers(len(PowConst.EXPS)))]
+            if e is None:
+                e = PowConst.EXPS[int(pool.rng.integers(len(PowConst.EXPS)))]
             # 'cast': exponent reaches Power as IntToFloat(constant(int)); 'lit': float literal
             via = 'cast' if float(e).is_integer() and e >= 0 and pool.rng.random() < .5 else 'lit'
         return pool.add('powconst', [a.i], dict(e=e, via=via), a.shape, a.kind)
@@ -485,11 +488,14 @@ RAW_BINARY = {'floordiv', 'min', 'max', 'greater', 'less', 'equal'}
 class Binary:
     @staticmethod
     def gen(pool, a=None, b=None, f=None):
+        chainmode = a is not None
         a = a or pool.pick()
         same = pool.rng.random() < .12
         if b is None:
             if same:
                 b = a
+            elif chainmode and pool.rng.random() < .6:   # systematic mixer: mostly a fresh, independent second operand
+                b = pool.view(Arg.gen(pool, want_kind=a.kind, shape=a.shape if pool.rng.random() < .8 else ()))
             else:
                 try:
                     b = pool.pick(lambda n: n.kind == a.kind and (n.shape == a.shape or n.ndim == 0 or a.ndim == 0))
@@ -684,14 +690,14 @@ class Diagonalize:
 @op('take', 3.)
 class Take:
     @staticmethod
-    def gen(pool, a=None):
+    def gen(pool, a=None, style=None):
         a = a or pool.pick(lambda n: n.ndim >= 1 and max(n.shape) > 0)
         axes = [i for i in range(a.ndim) if a.shape[i] > 0]
         if not axes:
             raise Reject
         axis = int(pool.rng.choice(axes))
         n = a.shape[axis]
-        style = str(pool.rng.choice(['const', 'const', 'neg', 'mask', 'arg', 'slice', 'get', 'range']))
+        style = style or str(pool.rng.choice(['const', 'const', 'neg', 'mask', 'arg', 'slice', 'get', 'range']))
         p = dict(axis=axis, style=style)
         args = [a.i]
         if style in ('const', 'neg'):
@@ -774,9 +780,9 @@ class Take:
 @op('inflate', 3.)
 class Inflate:
     @staticmethod
-    def gen(pool, a=None):
+    def gen(pool, a=None, style=None):
         a = a or pool.pick(lambda n: n.kind != 'x')
-        style = str(pool.rng.choice(['const1', 'const1', 'const0', 'const2', 'arg1', 'perm']))
+        style = style or str(pool.rng.choice(['const1', 'const1', 'const0', 'const2', 'arg1', 'perm']))
         nd = {'const0': 0, 'const1': 1, 'const2': 2, 'arg1': 1, 'perm': 1}[style]
         if a.ndim < nd:
             raise Reject
@@ -1351,7 +1357,13 @@ def _open_loop(pool):
     length = int(rng.choice([0, 1, 2, 3, 4], p=[.04, .1, .3, .36, .2]))
     name = f'i{pool.nloops}'
     pool.nloops += 1
-    idx = pool.add('loopindex', [], dict(name=name, length=length), (), 'i')
+    if length > 0 and rng.random() < .25:
+        # run-time loop length 0..length given by an integer argument (only closed by loop_sum: the shape stays static)
+        ln = Arg.gen(pool, want_kind='i', shape=())
+        pool.nodes[ln]['p']['range'] = [0, length + 1]
+        idx = pool.add('loopindex', [ln], dict(name=name, length=length, var=True), (), 'i')
+    else:
+        idx = pool.add('loopindex', [], dict(name=name, length=length), (), 'i')
     pool.open_loops[name] = (length, idx)
     # make the index useful right away in one of several ways
     for _ in range(int(rng.integers(1, 3))):
@@ -1398,9 +1410,9 @@ def _close_loop(pool, name):
                 body = pool.pick(lambda n: not n.loops) if rng.random() < .5 else pool.view(idx)
             except Reject:
                 break
-        how = 'sum' if body.ndim == 0 or rng.random() < .6 else 'concat'
+        how = 'sum' if body.ndim == 0 or rng.random() < .6 or pool.nodes[idx]['p'].get('var') else 'concat'
         if how == 'sum' and body.kind == 'b':   # LoopSum refuses boolean bodies (constructor assertion)
-            if body.ndim == 0:
+            if body.ndim == 0 or pool.nodes[idx]['p'].get('var'):
                 continue
             how = 'concat'
         if how == 'sum':
@@ -1458,11 +1470,16 @@ def chain(rng, opnames, kind=None):
         (Arg if rng.random() < .5 else Const).gen(pool, want_kind=k, shape=tuple(pool.nodes[0]['shape']))
     cur = pool.view(0)
     for name in opnames:
+        forced = {}
+        if ':' in name:
+            name, sub = name.split(':', 1)
+            key = {'unary': 'f', 'binary': 'f', 'take': 'style', 'inflate': 'style', 'powconst': 'e'}[name]
+            forced = {key: float(sub) if name == 'powconst' else sub}
         cls = OPS[name]
         last = None
         for attempt in range(6):
             try:
-                last = cls.gen(pool, a=cur)
+                last = cls.gen(pool, a=cur, **forced)
                 break
             except Reject:
                 continue
@@ -1472,6 +1489,25 @@ def chain(rng, opnames, kind=None):
             raise Reject
         cur = pool.view(last)
     return prune(dict(nodes=pool.nodes, outputs=[cur.i]))
+
+
+def chain_kinds():
+    'operator kinds incl. sub-kinds for the systematic mixer'
+    kinds = []
+    for name in CHAINABLE:
+        if name == 'unary':
+            kinds += ['unary:' + f for f in UNARY]
+        elif name == 'binary':
+            kinds += ['binary:' + f for f in BINARY]
+        elif name == 'take':
+            kinds += ['take:' + st for st in ('const', 'neg', 'mask', 'arg', 'slice', 'get', 'range')]
+        elif name == 'inflate':
+            kinds += ['inflate:' + st for st in ('const1', 'const0', 'const2', 'arg1', 'perm')]
+        elif name == 'powconst':
+            kinds += ['powconst:' + str(e) for e in (2, 3, 4, 0, -1, -2, .5, 1.5, .25)]
+        else:
+            kinds.append(name)
+    return kinds
 
 
 CHAINABLE = ['unary', 'powconst', 'binary', 'insertaxis', 'transpose', 'sum', 'product', 'takediag', 'diagonalize', 'take', 'inflate',
@@ -1538,8 +1574,16 @@ def shadow(case, argvals, want_nodes=False, trace=None, kink=0.):
         o = d['op']
         if o in ('loop_sum', 'loop_concat'):
             name, L = d['p']['name'], d['p']['length']
+            idxnode = nodes[d['args'][1]]
+            if idxnode['args']:   # run-time length
+                L = int(val(idxnode['args'][0], env))
+                if not 0 <= L <= idxnode['p']['length']:
+                    raise OutOfDomain('loop length out of range')
             body = d['args'][0]
             parts = [val(body, {**env, name: k}) for k in range(L)]
+            if L == 0 and idxnode['p']['length'] > 0:
+                # the body is not executed, but its loop-invariant parts are (outside the loop): they must be in the domain too
+                val(body, {**env, name: 0})
             if o == 'loop_sum':
                 if L == 0:
                     r = numpy.zeros(d['shape'], NPDT[d['kind']])
